@@ -83,7 +83,8 @@ def run_check(prop, tier, seed, replay=None):
             model_out = core.run_model(ws, raw, reqs)
         except CheckFailure as e:
             broken.append({'kind': e.what, 'obligation': 'model-run', 'detail': e.detail[-1500:]})
-        impl_out = core.run_impl(ws, reqs, **prop.impl_kwargs(ctx))
+        ctx['ws'] = ws
+        impl_out = prop.run_impl(ws, cases, ctx)
         # second phase: cases derived from the implementation's first-phase observations
         if not replay:
             more = prop.phase2(rng, ctx, cases, impl_out, tier)
@@ -95,7 +96,7 @@ def run_check(prop, tier, seed, replay=None):
                     except CheckFailure as e:
                         broken.append({'kind': e.what, 'obligation': 'model-run', 'detail': e.detail[-1500:]})
                         model_out = None
-                impl_out = impl_out + core.run_impl(ws, mreqs, **prop.impl_kwargs(ctx))
+                impl_out = impl_out + prop.run_impl(ws, more, ctx)
                 cases = cases + more
         disagreements = []
         unmodelled = 0
@@ -135,6 +136,9 @@ def run_check(prop, tier, seed, replay=None):
                            'detail': json.dumps(disagreements[0])[:3000], 'count': len(disagreements)})
         # 4. when something broke and no failing input is known yet: search harder on the implementation
         searched = 0
+        if disagreements and not failing and not replay:
+            for f in prop.search_disagreements(ws, ctx, disagreements, cases, impl_out):
+                failing.append(f)
         if broken and not failing and not replay:
             extra = prop.search_cases(rng, ctx, tier)
             if extra:
@@ -178,7 +182,7 @@ def run_check(prop, tier, seed, replay=None):
         }
         if failing:
             path = core.write_replay(prop.id, {'property': prop.id, 'kind': 'failing-input', 'cases': [failing[0]['case']],
-                                               'impl': failing[0]['impl'], 'what': failing[0]['what'], 'seed': seed,
+                                               'impl': failing[0]['impl'], 'what': failing[0]['what'], 'seed': seed, 'history': failing[0].get('history'),
                                                'broken': broken[:3]})
             print('VIOLATION property=%s replay=%s' % (prop.id, path))
             exit_code = 1
@@ -204,6 +208,26 @@ class PropBase:
         return {}
     def cases(self, rng, ctx, tier):
         return []
+    def run_impl(self, ws, cases, ctx):
+        """default: all cases in one implementation process, in order; cases carrying meta['run'] are grouped into
+        separate processes (one per run id) with the environment given in ctx['runs'][id]"""
+        runs = {}
+        order = []
+        for i, c in enumerate(cases):
+            r = c.meta.get('run') if isinstance(c.meta, dict) else None
+            if r not in runs:
+                runs[r] = []; order.append(r)
+            runs[r].append(i)
+        out = [None] * len(cases)
+        for r in order:
+            idx = runs[r]
+            kw = dict(self.impl_kwargs(ctx))
+            if r is not None:
+                kw['extra_env'] = dict(kw.get('extra_env') or {}, **ctx.get('runs', {}).get(r, {}))
+            res = core.run_impl(ws, [(cases[i].op, cases[i].args) for i in idx], **kw)
+            for i, x in zip(idx, res):
+                out[i] = x
+        return out
     def phase2(self, rng, ctx, cases, impl_out, tier):
         return []
     def search_cases(self, rng, ctx, tier):
@@ -214,6 +238,8 @@ class PropBase:
     def oracle(self, case, impl, ctx):
         return None
     def oracle_bulk(self, cases, impl_out, ctx):
+        return []
+    def search_disagreements(self, ws, ctx, disagreements, cases, impl_out):
         return []
     def classify(self, case, impl, failure):
         return None
